@@ -440,6 +440,8 @@ def classify_error(c, dgs):
         return "TryFrom:generic-enum-repr-generics"
     if c.derive == "FromStr" and c.item.kind == "enum" and generic and "E0107" in codes:
         return "FromStr:generic-enum-missing-generics"
+    if "E0004" in codes:
+        return "%s:non-exhaustive-match:%s:%s" % (c.derive, c.shape, c.attr)
     if "proc-macro derive panicked" in msg:
         return "%s:derive-panic%s" % (c.derive, ":raw-identifier" if c.naming == "raw" else "")
     if C.group_of(c.derive) in ("fmt", "debug") and ("lifetime may not live long enough" in msg or "E0283" in codes):
